@@ -147,9 +147,9 @@ func c03CLI(e *c03Env, rnd *vh.Rand) error {
 		for _, cmd := range []string{"extract", "cat", "untar"} {
 			for _, unc := range []bool{false, true} {
 				use := plants
-				if e.a.Tier != "thorough" { // quick: the same-size foreign chunk, the intact store, three more kinds
+				if e.a.Tier != "thorough" { // quick: the same-size foreign chunk, the intact store, two more kinds
 					use = []string{"other-same-size", "good"}
-					for len(use) < 5 {
+					for len(use) < 4 {
 						use = append(use, plants[rnd.Intn(len(plants)-1)])
 					}
 				}
